@@ -61,6 +61,112 @@ pub fn at(k: &str, v: &str) -> (String, String) {
     (k.to_string(), v.to_string())
 }
 
+
+// ---------------------------------------------------------------- transport (coq/Run/Pack.v)
+/// generic tree sent to Coq: numbers, texts (code points on the Coq side), raw bytes, lists
+#[derive(Clone, Debug, PartialEq)]
+pub enum Xt {
+    N(u64),
+    S(String),
+    B(Vec<u8>),
+    L(Vec<Xt>),
+}
+fn varint(mut n: u64, out: &mut Vec<u8>) {
+    loop {
+        let b = (n & 127) as u8;
+        n >>= 7;
+        if n == 0 {
+            out.push(b);
+            break;
+        }
+        out.push(b | 128);
+    }
+}
+impl Xt {
+    pub fn s(t: &str) -> Xt {
+        Xt::S(t.to_string())
+    }
+    pub fn b(b: bool) -> Xt {
+        Xt::N(b as u64)
+    }
+    pub fn opt(o: Option<Xt>) -> Xt {
+        match o {
+            None => Xt::L(vec![]),
+            Some(t) => Xt::L(vec![t]),
+        }
+    }
+    pub fn ser(&self, out: &mut Vec<u8>) {
+        match self {
+            Xt::N(n) => {
+                out.push(0);
+                varint(*n, out);
+            }
+            Xt::S(s) => {
+                out.push(1);
+                varint(s.len() as u64, out);
+                out.extend_from_slice(s.as_bytes());
+            }
+            Xt::B(b) => {
+                out.push(4);
+                varint(b.len() as u64, out);
+                out.extend_from_slice(b);
+            }
+            Xt::L(l) => {
+                out.push(2);
+                for x in l {
+                    x.ser(out);
+                }
+                out.push(3);
+            }
+        }
+    }
+    /// Gallina list of primitive integers: byte count, then 7 bytes per integer (little endian)
+    pub fn packed(&self) -> String {
+        let mut bytes = Vec::new();
+        self.ser(&mut bytes);
+        let mut o = String::from("[");
+        let _ = write!(o, "{}", bytes.len());
+        for ch in bytes.chunks(7) {
+            let mut v: u64 = 0;
+            for (i, b) in ch.iter().enumerate() {
+                v |= (*b as u64) << (8 * i);
+            }
+            let _ = write!(o, ";{}", v);
+        }
+        o.push(']');
+        o
+    }
+    /// the dump as the Coq side prints it (tm): N_ n | L_ [..]
+    pub fn to_tm(&self) -> Tm {
+        match self {
+            Xt::N(n) => Tm::N(*n),
+            Xt::S(s) => Tm::s(s),
+            Xt::B(b) => Tm::L(b.iter().map(|c| Tm::N(*c as u64)).collect()),
+            Xt::L(l) => Tm::L(l.iter().map(|x| x.to_tm()).collect()),
+        }
+    }
+}
+pub fn xt_attrs(a: &[(String, String)]) -> Xt {
+    Xt::L(a.iter().map(|(k, v)| Xt::L(vec![Xt::s(k), Xt::s(v)])).collect())
+}
+pub fn xt_node(n: &Node) -> Xt {
+    match n {
+        Node::Empty(name, a) => Xt::L(vec![Xt::N(0), Xt::s(name), xt_attrs(a)]),
+        Node::Elem(name, a, k) => Xt::L(vec![Xt::N(1), Xt::s(name), xt_attrs(a), Xt::L(k.iter().map(xt_node).collect())]),
+        Node::Text(s) => Xt::L(vec![Xt::N(2), Xt::s(s)]),
+        Node::CData(s) => Xt::L(vec![Xt::N(3), Xt::s(s)]),
+        Node::Comment(s) => Xt::L(vec![Xt::N(4), Xt::s(s)]),
+        Node::Decl => Xt::L(vec![Xt::N(5)]),
+        Node::DocType(s) => Xt::L(vec![Xt::N(6), Xt::s(s)]),
+    }
+}
+pub fn xt_doc(d: &[Node]) -> Xt {
+    Xt::L(d.iter().map(xt_node).collect())
+}
+pub fn xt_pf_table(t: &[(String, Option<f64>)]) -> Xt {
+    Xt::L(t.iter().map(|(s, r)| Xt::L(vec![Xt::s(s), Xt::opt(r.map(tm_fl))])).collect())
+}
+
 // ---------------------------------------------------------------- Gallina printing
 pub fn g_attrs(a: &[(String, String)]) -> String {
     let v: Vec<String> = a.iter().map(|(k, v)| format!("({},{})", g_str(k), g_str(v))).collect();
@@ -319,58 +425,58 @@ pub fn render(doc: &[Node], rng: &mut Rng, vary: bool) -> String {
 }
 
 // ---------------------------------------------------------------- dumps
-pub fn tm_fl(x: f64) -> Tm {
+pub fn tm_fl(x: f64) -> Xt {
     let (s, m, e, c) = dyadic(x);
     match c {
-        2 => Tm::L(vec![Tm::N(2)]),
-        1 => Tm::L(vec![Tm::N(1), Tm::b(s)]),
-        _ => Tm::L(vec![Tm::N(0), Tm::b(s), Tm::N(m), Tm::N((e + 2000) as u64)]),
+        2 => Xt::L(vec![Xt::N(2)]),
+        1 => Xt::L(vec![Xt::N(1), Xt::b(s)]),
+        _ => Xt::L(vec![Xt::N(0), Xt::b(s), Xt::N(m), Xt::N((e + 2000) as u64)]),
     }
 }
-pub fn tm_bytes(b: &[u8]) -> Tm {
-    Tm::L(b.iter().map(|c| Tm::N(*c as u64)).collect())
+pub fn tm_bytes(b: &[u8]) -> Xt {
+    Xt::B(b.to_vec())
 }
-pub fn tm_pv(v: &plist::Value) -> Tm {
+pub fn tm_pv(v: &plist::Value) -> Xt {
     match v {
-        plist::Value::String(s) => Tm::L(vec![Tm::N(0), Tm::s(s)]),
+        plist::Value::String(s) => Xt::L(vec![Xt::N(0), Xt::s(s)]),
         plist::Value::Integer(i) => {
             if let Some(x) = i.as_signed() {
-                Tm::L(vec![Tm::N(1), Tm::b(x < 0), Tm::N(x.unsigned_abs())])
+                Xt::L(vec![Xt::N(1), Xt::b(x < 0), Xt::N(x.unsigned_abs())])
             } else {
-                Tm::L(vec![Tm::N(1), Tm::b(false), Tm::N(i.as_unsigned().unwrap_or(0))])
+                Xt::L(vec![Xt::N(1), Xt::b(false), Xt::N(i.as_unsigned().unwrap_or(0))])
             }
         }
-        plist::Value::Real(r) => Tm::L(vec![Tm::N(2), tm_fl(*r)]),
-        plist::Value::Boolean(b) => Tm::L(vec![Tm::N(3), Tm::b(*b)]),
-        plist::Value::Data(d) => Tm::L(vec![Tm::N(4), tm_bytes(d)]),
-        plist::Value::Date(d) => Tm::L(vec![Tm::N(5), Tm::s(&d.to_xml_format())]),
-        plist::Value::Array(a) => Tm::L(vec![Tm::N(6), Tm::L(a.iter().map(tm_pv).collect())]),
+        plist::Value::Real(r) => Xt::L(vec![Xt::N(2), tm_fl(*r)]),
+        plist::Value::Boolean(b) => Xt::L(vec![Xt::N(3), Xt::b(*b)]),
+        plist::Value::Data(d) => Xt::L(vec![Xt::N(4), tm_bytes(d)]),
+        plist::Value::Date(d) => Xt::L(vec![Xt::N(5), Xt::s(&d.to_xml_format())]),
+        plist::Value::Array(a) => Xt::L(vec![Xt::N(6), Xt::L(a.iter().map(tm_pv).collect())]),
         plist::Value::Dictionary(d) => tm_dict(d),
-        _ => Tm::L(vec![Tm::N(9)]),
+        _ => Xt::L(vec![Xt::N(9)]),
     }
 }
-pub fn tm_dict(d: &plist::Dictionary) -> Tm {
+pub fn tm_dict(d: &plist::Dictionary) -> Xt {
     let mut kv: Vec<(&String, &plist::Value)> = d.iter().collect();
     kv.sort_by(|a, b| a.0.as_bytes().cmp(b.0.as_bytes()));
-    Tm::L(vec![
-        Tm::N(7),
-        Tm::L(kv.into_iter().map(|(k, v)| Tm::L(vec![Tm::s(k), tm_pv(v)])).collect()),
+    Xt::L(vec![
+        Xt::N(7),
+        Xt::L(kv.into_iter().map(|(k, v)| Xt::L(vec![Xt::s(k), tm_pv(v)])).collect()),
     ])
 }
-fn tm_ostr<T: AsRef<str>>(o: Option<T>) -> Tm {
-    Tm::opt(o.map(|s| Tm::s(s.as_ref())))
+fn tm_ostr<T: AsRef<str>>(o: Option<T>) -> Xt {
+    Xt::opt(o.map(|s| Xt::s(s.as_ref())))
 }
-fn tm_olib(o: Option<&norad::Plist>) -> Tm {
-    Tm::opt(o.map(tm_dict))
+fn tm_olib(o: Option<&norad::Plist>) -> Xt {
+    Xt::opt(o.map(tm_dict))
 }
-fn tm_ocolor(c: &Option<norad::Color>) -> Tm {
-    Tm::opt(c.as_ref().map(|c| {
+fn tm_ocolor(c: &Option<norad::Color>) -> Xt {
+    Xt::opt(c.as_ref().map(|c| {
         let (r, g, b, a) = c.channels();
-        Tm::L(vec![tm_fl(r), tm_fl(g), tm_fl(b), tm_fl(a)])
+        Xt::L(vec![tm_fl(r), tm_fl(g), tm_fl(b), tm_fl(a)])
     }))
 }
-fn tm_transform(t: &norad::AffineTransform) -> Tm {
-    Tm::L(vec![
+fn tm_transform(t: &norad::AffineTransform) -> Xt {
+    Xt::L(vec![
         tm_fl(t.x_scale),
         tm_fl(t.xy_scale),
         tm_fl(t.yx_scale),
@@ -388,24 +494,24 @@ pub fn ptype_code(t: &PointType) -> u64 {
         PointType::QCurve => 4,
     }
 }
-pub fn tm_glyph(g: &Glyph) -> Tm {
+pub fn tm_glyph(g: &Glyph) -> Xt {
     let guides = g
         .guidelines
         .iter()
         .map(|x| {
             let l = match x.line {
-                Line::Vertical(x) => Tm::L(vec![Tm::N(0), tm_fl(x)]),
-                Line::Horizontal(y) => Tm::L(vec![Tm::N(1), tm_fl(y)]),
-                Line::Angle { x, y, degrees } => Tm::L(vec![Tm::N(2), tm_fl(x), tm_fl(y), tm_fl(degrees)]),
+                Line::Vertical(x) => Xt::L(vec![Xt::N(0), tm_fl(x)]),
+                Line::Horizontal(y) => Xt::L(vec![Xt::N(1), tm_fl(y)]),
+                Line::Angle { x, y, degrees } => Xt::L(vec![Xt::N(2), tm_fl(x), tm_fl(y), tm_fl(degrees)]),
             };
-            Tm::L(vec![l, tm_ostr(x.name.as_ref()), tm_ocolor(&x.color), tm_ostr(x.identifier()), tm_olib(x.lib())])
+            Xt::L(vec![l, tm_ostr(x.name.as_ref()), tm_ocolor(&x.color), tm_ostr(x.identifier()), tm_olib(x.lib())])
         })
         .collect();
     let anchors = g
         .anchors
         .iter()
         .map(|a| {
-            Tm::L(vec![
+            Xt::L(vec![
                 tm_fl(a.x),
                 tm_fl(a.y),
                 tm_ostr(a.name.as_ref()),
@@ -418,7 +524,7 @@ pub fn tm_glyph(g: &Glyph) -> Tm {
     let comps = g
         .components
         .iter()
-        .map(|c| Tm::L(vec![Tm::s(c.base.as_str()), tm_transform(&c.transform), tm_ostr(c.identifier()), tm_olib(c.lib())]))
+        .map(|c| Xt::L(vec![Xt::s(c.base.as_str()), tm_transform(&c.transform), tm_ostr(c.identifier()), tm_olib(c.lib())]))
         .collect();
     let contours = g
         .contours
@@ -428,34 +534,34 @@ pub fn tm_glyph(g: &Glyph) -> Tm {
                 .points
                 .iter()
                 .map(|p| {
-                    Tm::L(vec![
+                    Xt::L(vec![
                         tm_fl(p.x),
                         tm_fl(p.y),
-                        Tm::N(ptype_code(&p.typ)),
-                        Tm::b(p.smooth),
+                        Xt::N(ptype_code(&p.typ)),
+                        Xt::b(p.smooth),
                         tm_ostr(p.name.as_ref()),
                         tm_ostr(p.identifier()),
                         tm_olib(p.lib()),
                     ])
                 })
                 .collect();
-            Tm::L(vec![tm_ostr(c.identifier()), tm_olib(c.lib()), Tm::L(pts)])
+            Xt::L(vec![tm_ostr(c.identifier()), tm_olib(c.lib()), Xt::L(pts)])
         })
         .collect();
-    let image = Tm::opt(g.image.as_ref().map(|i| {
-        Tm::L(vec![Tm::s(&i.file_name().display().to_string()), tm_ocolor(&i.color), tm_transform(&i.transform)])
+    let image = Xt::opt(g.image.as_ref().map(|i| {
+        Xt::L(vec![Xt::s(&i.file_name().display().to_string()), tm_ocolor(&i.color), tm_transform(&i.transform)])
     }));
-    Tm::L(vec![
-        Tm::s(g.name().as_str()),
+    Xt::L(vec![
+        Xt::s(g.name().as_str()),
         tm_fl(g.width),
         tm_fl(g.height),
-        Tm::L(g.codepoints.iter().map(|c| Tm::N(c as u64)).collect()),
+        Xt::L(g.codepoints.iter().map(|c| Xt::N(c as u64)).collect()),
         tm_ostr(g.note.as_ref()),
         image,
-        Tm::L(guides),
-        Tm::L(anchors),
-        Tm::L(comps),
-        Tm::L(contours),
+        Xt::L(guides),
+        Xt::L(anchors),
+        Xt::L(comps),
+        Xt::L(contours),
         tm_dict(&g.lib),
     ])
 }
@@ -511,14 +617,14 @@ pub fn err_code(e: &GlifLoadError) -> (u64, String) {
 }
 
 /// outcome of Glyph::parse_raw as a Tm in the format of GlifDump.tm_res, plus a short label
-pub fn parse_outcome(xml: &[u8]) -> (Tm, String, Option<Glyph>) {
+pub fn parse_outcome(xml: &[u8]) -> (Xt, String, Option<Glyph>) {
     match catch(|| Glyph::parse_raw(xml)) {
-        Err(msg) => (Tm::L(vec![Tm::N(2), Tm::N(0)]), format!("PANIC {}", msg), None),
+        Err(msg) => (Xt::L(vec![Xt::N(2), Xt::N(0)]), format!("PANIC {}", msg), None),
         Ok(Err(e)) => {
             let (c, s) = err_code(&e);
-            (Tm::L(vec![Tm::N(1), Tm::N(c)]), format!("Err {}", s), None)
+            (Xt::L(vec![Xt::N(1), Xt::N(c)]), format!("Err {}", s), None)
         }
-        Ok(Ok(g)) => (Tm::L(vec![Tm::N(0), tm_glyph(&g)]), "Ok".to_string(), Some(g)),
+        Ok(Ok(g)) => (Xt::L(vec![Xt::N(0), tm_glyph(&g)]), "Ok".to_string(), Some(g)),
     }
 }
 
